@@ -218,6 +218,12 @@ def mon_c13(tr):
                 if j >= len(ev):
                     return None  # the poll died (exception): nothing to check
             ka = ev[j][1]["k"]
+            if ev[j][1].get("level", 0) > 0:
+                # stochastic target (declared, specified or found by the run-time test): every polled point is judged on a GP estimate,
+                # which carries a positive predictive SD -- never on the raw observation with SD 0
+                for r_ in raw_imprs[:ncall]:
+                    if r_[5] is None or not (r_[5] > 0):
+                        return ("noisy-poll-on-raw-sample", f"stochastic target (level {ev[j][1]['level']}): a polled point was judged with SD {r_[5]} (estimate {r_[3]}), i.e. on the raw observation")
             if len(imprs) > ncall and raw_imprs[ncall][3] != ev[j][1]["fval"] and not (math.isnan(raw_imprs[ncall][3]) and math.isnan(ev[j][1]["fval"])):
                 # the stalling test of a failed poll compares a recorded iterate with the CURRENT incumbent estimate (all noise modes)
                 return ("stall-test-stale-incumbent", f"mesh-acceleration test of a poll compared the history with {raw_imprs[ncall][3]} while the incumbent estimate is {ev[j][1]['fval']}")
